@@ -107,6 +107,10 @@ def extract(cfg, repo=None, verbose=True):
     outdir = os.path.join(CACHE, "facts", th, cfg)
     done = os.path.join(outdir, "DONE")
     if os.path.exists(done):
+        try:
+            os.utime(os.path.join(CACHE, "facts", th))
+        except OSError:
+            pass
         return outdir
     os.makedirs(os.path.join(CACHE, "facts", th), exist_ok=True)
     lock = open(os.path.join(CACHE, "facts", th, cfg + ".lock"), "w")
@@ -155,7 +159,7 @@ def _prune(keep):
     root = os.path.join(CACHE, "facts")
     ds = [d for d in os.listdir(root) if os.path.isdir(os.path.join(root, d)) and d != keep]
     ds.sort(key=lambda d: os.path.getmtime(os.path.join(root, d)))
-    for d in ds[:-5] if len(ds) > 5 else []:
+    for d in ds[:-12] if len(ds) > 12 else []:
         shutil.rmtree(os.path.join(root, d), ignore_errors=True)
         for f in glob.glob(os.path.join(root, d + "*")):
             try:
